@@ -178,7 +178,7 @@ def check_cell(cfg, sh, seed, part, prior, dec, scratch):
     import astropy.units as u
     import thejoker as tj
 
-    data, dd = pb.make_data(n=sh["n"], raw=sh.get("raw", "clean"), container=sh.get("container", "list"), layout=sh["layout"], err=sh["err"], unit=sh["unit"], t_ref=pb.shape_tref(sh, cfg["n_offsets"]),
+    data, dd = pb.make_data(n=sh["n"], raw=sh.get("raw", "clean"), container=sh.get("container", "list"), sliced=sh.get("sliced", False), layout=sh["layout"], err=sh["err"], unit=sh["unit"], t_ref=pb.shape_tref(sh, cfg["n_offsets"]),
                             seed=seed, n_surveys=cfg["n_offsets"] + 1, t_ref_scale=("utc" if sh["n"] % 2 else "tcb"), interleave=(not sh["tref"]))
     problem = pb.ref_problem(dd, dec)
     theta = theta_rows(seed, float(np.mean(dd["sig"])))
